@@ -269,6 +269,25 @@ def run(ctx):
             for b in BACKENDS:
                 judge(ctx, t, "T", b, "in-list-%d" % n_items)
             ctx.cls("in-list-length:%d" % n_items)
+    # predicates as OPERANDS of a comparison (either side, both sides), at the root and under
+    # not: the shapes for which a backend may build helper expressions of its own
+    s_, u_, a_, fl = T.ident("s"), T.ident("u"), T.ident("a"), T.ident("flag")
+    preds = [T.call("contains", s_, T.S("x")), T.call("startswith", u_, T.S("How")), T.call("endswith", s_, T.S("z")),
+             ("cmp", "gt", a_, T.I(5)), ("cmp", "in", a_, T.lst(T.I(1), T.I(7))), ("cmp", "eq", s_, T.S("q"))]
+    k = 0
+    for l in preds + [fl, T.lit("bool", "true")]:
+        for r in preds + [fl, T.lit("bool", "false")]:
+            if l[0] in ("id", "lit") and r[0] in ("id", "lit"):
+                continue
+            for op in ("eq", "ne"):
+                k += 1
+                if not ctx.mine(k):
+                    continue
+                t = ("cmp", op, l, r)
+                for wrap in (t, ("un", "not", t), ("bool", "and", t, ("cmp", "eq", T.ident("b"), T.I(1)))):
+                    for b in BACKENDS:
+                        judge(ctx, wrap, "T", b, "predicate-operands")
+    ctx.cls("predicate-operands")
     n = ctx.pick(260, 5000)
     for i in range(n):
         if ctx.out_of_time():
